@@ -111,3 +111,4 @@ def run(col, configs, tier):
         col.set_config(name)
         guarded(col, rule_who_lossy, facts)
         guarded(col, X.rule_lossy_independent_shortcuts, facts)
+        guarded(col, X.rule_lossy_marker, facts)
